@@ -22,23 +22,69 @@ func init() {
 var errInj = errors.New("injected underlying failure")
 
 // scriptW is the environment: it accepts `acc` bytes and fails when `fail` is set, and logs every call.
+// A request may reach it in several pieces (calls that offer bytes): the failure is injected into piece number
+// failAt (0 = the first one, which is the only one with today's code), the other pieces are accepted whole.
 type scriptW struct {
-	acc   int
-	fail  bool
-	calls []J
+	acc    int
+	fail   bool
+	failAt int
+	pieces int
+	logged int
+	calls  []J
 }
+
+// buffers of more than 1 MiB are logged by their length only (they hold zeros)
+const logBytesUpTo = 1 << 20
 
 func (w *scriptW) WriteAt(p []byte, off int64) (int, error) {
 	k := len(p)
 	var err error
-	if w.fail && len(p) > 0 { // a call that offers no bytes is never failed: whether it is made at all is left open
-		if w.acc < k {
-			k = w.acc
+	failed := false
+	if len(p) > 0 { // a call that offers no bytes is never failed: whether it is made at all is left open
+		if w.fail && w.pieces == w.failAt {
+			if w.acc < k {
+				k = w.acc
+			}
+			err = errInj
+			failed = true
 		}
-		err = errInj
+		w.pieces++
 	}
-	w.calls = append(w.calls, J{"off": off, "p": bytesJ(p), "k": k, "e": w.fail && len(p) > 0})
+	// A request passed on in very many pieces: from the 64th logged piece (or 1 MiB) on, a piece that continues the
+	// previous one exactly (adjacent, the previous one accepted whole and without error) is merged into it and only
+	// lengths are kept. This loses nothing the trace specification looks at (SWEnv!PiecesOK holds by construction).
+	if n := len(w.calls); n > 0 && len(p) > 0 && (n >= 64 || w.logged > logBytesUpTo) {
+		last := w.calls[n-1]
+		ll, isL := last["n"].(int)
+		if !isL {
+			ll = len(last["p"].([]int64))
+		}
+		if !last["e"].(bool) && last["k"].(int) == ll && ll > 0 && last["off"].(int64)+int64(ll) == off {
+			if !isL {
+				last["p"] = []int64{}
+			}
+			last["n"], last["k"], last["e"] = ll+len(p), ll+k, failed
+			return k, err
+		}
+	}
+	if len(p) > logBytesUpTo {
+		w.calls = append(w.calls, J{"off": off, "p": []int64{}, "n": len(p), "k": k, "e": failed})
+	} else {
+		w.calls = append(w.calls, J{"off": off, "p": bytesJ(p), "k": k, "e": failed})
+		w.logged += len(p)
+	}
 	return k, err
+}
+
+// bigZeros returns n zero bytes (n up to a little over 2^30); the pages are never touched, so this costs address
+// space only.
+var bigBuf []byte
+
+func bigZeros(n int) []byte {
+	if cap(bigBuf) < n {
+		bigBuf = make([]byte, n)
+	}
+	return bigBuf[:n]
 }
 
 func errClass(err error) string {
@@ -93,14 +139,28 @@ func execSW(in In, em *Emitter) {
 			fatalf("sw: an end-frame history must start with an absolute Seek")
 		}
 		under.calls = nil
-		under.acc, under.fail = 0, false
+		under.acc, under.fail, under.failAt, under.pieces, under.logged = 0, false, 0, 0, 0
 		if op.has("acc") {
 			under.acc, under.fail = op.Int("acc"), op.Bool("fail")
+		}
+		if op.has("failAt") {
+			under.failAt = op.Int("failAt")
 		}
 		var n int64
 		var err error
 		var abn string
 		switch k {
+		case "WriteL": // a buffer of n zero bytes, n beyond what can be written down (2^30 and more)
+			p := bigZeros(op.Int("n"))
+			ev["n"] = len(p)
+			abn = guard(func() { var m int; m, err = w.Write(p); n = int64(m) })
+		case "WriteAtL":
+			if full == nil {
+				continue
+			}
+			p, off := bigZeros(op.Int("n")), op.I("off")
+			ev["n"], ev["off"] = len(p), off
+			abn = guard(func() { var m int; m, err = full.WriteAt(p, off); n = int64(m) })
 		case "New":
 			b, sz := op.I("base"), op.I("n")
 			base = b
@@ -229,6 +289,40 @@ func genC18(g *Gen) {
 			b[i] = int64(r.Intn(256))
 		}
 		return b
+	}
+	// one request of 2^30 bytes and more (zeros, logged by length): sections that hold it, end inside it, end exactly
+	// with it; the underlying writer accepts it, fails at its start, inside it, at its end (and, should the request
+	// reach it in pieces, in the second piece)
+	const gib = int64(1) << 30
+	for c := 0; c < g.N(24, 200); c++ {
+		N := []int64{gib + 4096, gib + 1, gib, gib + 1<<20, gib - 1}[c%5]
+		sec := []int64{N + 10, N, N - 1, gib, gib + 1, 1<<31 - 2, N - 4097}[r.Intn(7)]
+		ops := []J{{"k": "New", "base": []int64{0, 4096, 1 << 40}[r.Intn(3)], "n": sec}}
+		pre := int64(0)
+		if r.Intn(2) == 0 {
+			l := r.Intn(9)
+			ops = append(ops, J{"k": "Write", "p": buf(l), "acc": 0, "fail": false})
+			pre = int64(l)
+		}
+		op := J{"k": "WriteL", "n": N}
+		if c%3 == 1 {
+			op = J{"k": "WriteAtL", "n": N, "off": []int64{0, 1, 5, 4096}[r.Intn(4)]}
+		}
+		_ = pre
+		switch r.Intn(5) {
+		case 0:
+			op["acc"], op["fail"] = 0, false
+		case 1:
+			op["acc"], op["fail"] = []int64{0, 1, 100, 4096}[r.Intn(4)], true
+		case 2:
+			op["acc"], op["fail"] = gib-int64(r.Intn(3)), true
+		case 3:
+			op["acc"], op["fail"], op["failAt"] = r.Intn(5000), true, 1
+		default:
+			op["acc"], op["fail"] = N-int64(r.Intn(2)), true
+		}
+		ops = append(ops, op)
+		g.Case("sw", J{"ops": ops})
 	}
 	nh := g.N(1500, 40000)
 	for h := 0; h < nh; h++ {
